@@ -11,7 +11,123 @@ use bmv_core::subj::*;
 use bmv_core::util::{J, guard, hex_short};
 
 pub fn run(ctx: &mut Ctx) {
-    if ctx.rng.chance(2, 5) { debug_text(ctx) } else { zeroize(ctx) }
+    match ctx.rng.below(10) {
+        0..=3 => debug_text(ctx),
+        4..=7 => zeroize(ctx),
+        _ => zeroize_state_map(ctx),
+    }
+}
+
+/// Needle-free variant of the drop scan: two objects of one type under the SAME key but with
+/// different IVs and histories. Storage bytes that differ between them are IV / nonce /
+/// counter / feedback state (or padding); with feature zeroize every such byte must be zero
+/// after drop, unless the liveness probe shows the object never reads it. This also sees
+/// secrets shorter than 8 bytes (a 32-bit block counter) and values that are not among the
+/// needles (a raw counter offset).
+fn zeroize_state_map(ctx: &mut Ctx) {
+    if cfg!(miri) {
+        return;
+    }
+    let p = pool(ctx);
+    if p.is_empty() {
+        return;
+    }
+    let mk = ctx.rng.pick(&p).clone();
+    let name = mk.name();
+    ctx.subject(&name);
+    ctx.note("check", J::s("zeroize-state-map"));
+    let b = ctx.cfg.bs;
+    let key = ctx.key.clone();
+    let iv_a = ctx.rng.bytes(mk.iv_len(b));
+    let iv_b = ctx.rng.bytes(mk.iv_len(b));
+    let ops_a: Vec<Op> = (0..ctx.rng.range(1, 4)).map(|_| mk.gen_op(ctx)).collect();
+    let ops_b: Vec<Op> = (0..ctx.rng.range(1, 4)).map(|_| mk.gen_op(ctx)).collect();
+    let probes: Vec<Op> = (0..5).map(|_| mk.gen_op(ctx)).collect();
+    ctx.note("iv_a", J::s(hex_short(&iv_a)));
+    ctx.note("iv_b", J::s(hex_short(&iv_b)));
+    let r = guard(|| {
+        let mut a = mk.make(&key, &iv_a);
+        let mut bo = mk.make(&key, &iv_b);
+        for op in &ops_a {
+            a.step(op);
+        }
+        for op in &ops_b {
+            bo.step(op);
+        }
+        // the buffered CFB types keep their in-block position in a usize field; it is the
+        // public number of bytes processed mod b, not "IV, nonce, counter or feedback state",
+        // and C17 does not demand that it be wiped
+        let pos_a: Option<usize> = if let Obj::Buf(o) = &a { Some(o.state().1) } else { None };
+        let scan = |o: Obj| match o {
+            Obj::Blk(o) => o.drop_scan(),
+            Obj::Buf(o) => o.drop_scan(),
+            Obj::Stream(o) => o.drop_scan(),
+            Obj::Core(o) => o.drop_scan(),
+        };
+        (scan(a), scan(bo), pos_a)
+    });
+    ctx.st.api_calls += (ops_a.len() + ops_b.len() + 2) as u64;
+    let (sa, sb, pos_a) = match r {
+        Ok(v) => v,
+        Err(p) => return ctx.panic_violation(&name, &p),
+    };
+    if sa.before.len() != sb.before.len() {
+        return;
+    }
+    // state bytes of A that are still non-zero after drop, grouped into runs
+    let n = sa.before.len();
+    let mut runs: Vec<(usize, usize)> = Vec::new();
+    let mut state_bytes = 0usize;
+    let mut i = 0;
+    while i < n {
+        if sa.before[i] != sb.before[i] {
+            state_bytes += 1;
+        }
+        if sa.before[i] != sb.before[i] && sa.after[i] != 0 {
+            let s0 = i;
+            while i < n && sa.before[i] != sb.before[i] && sa.after[i] != 0 {
+                i += 1;
+            }
+            runs.push((s0, i - s0));
+        } else {
+            i += 1;
+        }
+    }
+    ctx.st.count(&format!("zeroize.state-map.scanned.{}", name));
+    ctx.st.count_n("zeroize.state-map.state-bytes", state_bytes as u64);
+    if state_bytes > 0 {
+        ctx.st.count(&format!("zeroize.state-map.saw-state.{}", name));
+    }
+    if !runs.is_empty() {
+        ctx.st.count(&format!("zeroize.state-map.after-drop-nonzero.{}", name));
+        if cfg!(feature = "zeroize") {
+            for &(off, len) in runs.iter().take(6) {
+                if let Some(pos) = pos_a {
+                    // is this run the `pos` word? (aligned usize equal to the exported position)
+                    let w0 = off / 8 * 8;
+                    if off + len <= w0 + 8 && w0 + 8 <= n && sa.after[w0..w0 + 8] == (pos as u64).to_le_bytes() {
+                        ctx.st.count("zeroize.state-map.buffered-cfb-position-not-demanded");
+                        continue;
+                    }
+                }
+                if bytes_are_live(&mk, &key, &iv_a, &ops_a, &probes, off, len) {
+                    return ctx.violation(
+                        &format!("C17/zeroize-state/{}", name),
+                        format!(
+                            "after drop (feature zeroize on) {} state byte(s) at offset {} of the object's {} bytes are still non-zero ({}); they differ between two instances under one key (so they are IV/nonce/counter/feedback state) and the object reads them (flipping them changes its behaviour)",
+                            len,
+                            off,
+                            n,
+                            hex_short(&sa.after[off..off + len])
+                        ),
+                    );
+                }
+            }
+            ctx.st.count("zeroize.state-map.dead-bytes-ignored");
+        }
+    }
+    ctx.nontrivial = true;
+    ctx.cell(format!("zeroize-state-map|{}|{}", name, ctx.cfg.name));
 }
 
 #[derive(Clone)]
@@ -264,7 +380,7 @@ fn count_hits(mem: &[u8], needles: &[(Vec<u8>, &'static str)]) -> (usize, Vec<(&
 /// replay the history; one gets those bytes flipped in its raw storage; then both are driven
 /// through the same probe operations. Identical behaviour = dead bytes (alignment padding that
 /// merely kept stale stack data when the value was moved to the heap), not object state.
-fn bytes_are_live(mk: &Mk, key: &[u8], iv: &[u8], ops: &[Op], probes: &[Op], off: usize) -> bool {
+fn bytes_are_live(mk: &Mk, key: &[u8], iv: &[u8], ops: &[Op], probes: &[Op], off: usize, len: usize) -> bool {
     let r = guard(|| {
         let mut a = mk.make(key, iv);
         let mut b = mk.make(key, iv);
@@ -272,7 +388,7 @@ fn bytes_are_live(mk: &Mk, key: &[u8], iv: &[u8], ops: &[Op], probes: &[Op], off
             a.step(op);
             b.step(op);
         }
-        b.poke(off, &[0x5A, 0xC3, 0x96, 0x0F, 0xF0, 0x69, 0x3C, 0xA5]);
+        b.poke(off, &[0x5A, 0xC3, 0x96, 0x0F, 0xF0, 0x69, 0x3C, 0xA5][..len.clamp(1, 8)]);
         let ra: Vec<Vec<u8>> = probes.iter().map(|op| a.step(op)).collect();
         let rb: Vec<Vec<u8>> = probes.iter().map(|op| b.step(op)).collect();
         ra != rb
@@ -406,7 +522,7 @@ fn zeroize(ctx: &mut Ctx) {
                     // only bytes the object actually uses are "its IV, nonce, counter and
                     // feedback state": alignment padding that kept stale stack data when the
                     // value was moved into the storage is excluded by a liveness probe
-                    let live: Vec<(&str, usize)> = after.1.iter().cloned().filter(|(_, off)| bytes_are_live(&mk, &key, &iv, &ops, &probes, *off)).collect();
+                    let live: Vec<(&str, usize)> = after.1.iter().cloned().filter(|(_, off)| bytes_are_live(&mk, &key, &iv, &ops, &probes, *off, 8)).collect();
                     if let Some((what, off)) = live.first() {
                         return ctx.violation(
                             &format!("C17/zeroize/{}", name),
